@@ -782,26 +782,26 @@ class HarnessTimeout(Exception):
     """the call did not return within OP_TIMEOUT seconds (observed as non-termination)"""
 
 
-OP_TIMEOUT = 4
+OP_TIMEOUT = 3.0          # seconds of CPU time of this process (robust against machine load), not wall clock
 
 
 def _alarm(signum, frame):
-    raise HarnessTimeout("call did not return within %d s" % OP_TIMEOUT)
+    raise HarnessTimeout("call did not return within %g s of CPU time" % OP_TIMEOUT)
 
 
 def execute(opname, a, pre_objs):
     """run one op on real objects; returns the real result or the exception raised"""
     import signal
 
-    old = signal.signal(signal.SIGALRM, _alarm)
-    signal.alarm(OP_TIMEOUT)
+    old = signal.signal(signal.SIGVTALRM, _alarm)
+    signal.setitimer(signal.ITIMER_VIRTUAL, OP_TIMEOUT)
     try:
         return OPS[opname](a, pre_objs)
     except Exception as e:  # noqa: BLE001 - the exception IS the observation
         return e
     finally:
-        signal.alarm(0)
-        signal.signal(signal.SIGALRM, old)
+        signal.setitimer(signal.ITIMER_VIRTUAL, 0)
+        signal.signal(signal.SIGVTALRM, old)
 
 
 def event(opname, a, pre_vals, backend, pre_objs=None):
